@@ -80,10 +80,94 @@ def main_order(prop):
     return Lemma(f'{prop}.main_order', build, prop=prop)
 
 
+# ------------------------------------------------------------------ cli.parser_for_backend: how backend options are declared
+CLI_PY = 'replicat/utils/cli.py'
+PARAM = models.opaque_type('Parameter')
+KIND = models.opaque_type('ParamKind')
+KIND.identity = True
+ANY.identity = True
+
+
+def pfb_setup(b):
+    from vf.interp import IterSpec
+    from vf.sym import Tup
+    n = z3.Int('n_params')
+    b.assume(n >= 0)
+    pname = lambda k: UF('param_name', INT, STR)(k)
+    parg = lambda k: UF('param_obj', INT, PARAM)(k)
+    KW = sym.const(KIND, 'KEYWORD_ONLY')
+    EMPTY = sym.const(ANY, 'Parameter.empty')
+    PARAM.attrs = {
+        'kind': ops.Property(lambda i, s, v: iter([(s, SV(KIND, UF('param_kind', PARAM, KIND)(v.z)))])),
+        'default': ops.Property(lambda i, s, v: iter([(s, SV(ANY, UF('param_default', PARAM, ANY)(v.z)))])),
+        'annotation': ops.Property(lambda i, s, v: iter([(s, SV(ANY, UF('param_annotation', PARAM, ANY)(v.z)))])),
+        'KEYWORD_ONLY': KW, 'empty': EMPTY,
+    }
+    b.KW, b.EMPTY = KW, EMPTY
+
+    def items(interp, st, args, kwargs):
+        yield st, IterSpec(n, lambda k: (SV(STR, pname(k)), SV(PARAM, parg(k))))
+
+    params = Obj('parameters', items=Model('items', items))
+    b.bind('inspect', Obj('inspect', signature=Model('signature', lambda i, s, a, k: iter([(s, Obj('signature', parameters=params))]))))
+
+    def add_argument(interp, st, args, kwargs):
+        st.emit('add_argument', args=list(args), kwargs=dict(kwargs))
+        yield st, None
+
+    group = Obj('group', add_argument=Model('add_argument', add_argument))
+    parser = Obj('parser', add_argument_group=Model('add_argument_group', lambda i, s, a, k: iter([(s, group)])))
+    b.bind('argparse', Obj('argparse', ArgumentParser=Model('ArgumentParser', lambda i, s, a, k: iter([(s, parser)]))))
+    cls = Obj('cls', display_name=sym.const(STR, 'display_name'))
+    b.bind('cls', cls)
+    b.sym('missing', ANY)
+    b.bind('config', Obj('config', backend_env_option=Model('backend_env_option', lambda i, s, a, k: iter([(s, sym.fresh(STR, 'envname'))]))))
+    gt = Model('guess_type', lambda i, s, a, k: iter([(s, sym.fresh(ANY, 'guessed'))]))
+    b.bind('guess_type', gt)
+    b.gt = gt
+    b.bind('isinstance', Model('isinstance', lambda i, s, a, k: iter([(s, sym.fresh(BOOL, 'isinstance'))])))
+
+
+def pfb_post(prop):
+    def post(res):
+        b = res.builder
+        n = 0
+        for p in res.body_paths('For#1'):
+            evs = p.st.events
+            start = [i for i, e in enumerate(evs) if e.kind == 'loop_body' and e.data.get('loop') == 'For#1'][-1]
+            adds = [e for e in evs[start:] if e.kind == 'add_argument']
+            arg = p.st.ghost['$start_For#1'].get('arg') if False else p.st.lookup('arg')
+            is_kw = UF('param_kind', PARAM, KIND)(arg.z) == b.KW.z
+            n += 1
+            # one option per keyword-only constructor parameter, none for the others
+            res.oblige(p, f'{prop}.parser_for_backend.one_option_per_keyword_only_parameter', z3.If(is_kw, z3.BoolVal(len(adds) == 1), z3.BoolVal(not adds)))
+            for e in adds:
+                # the text given on the command line is converted by the SAME function that converts the text of the
+                # environment variable and of the configuration file (config.py uses utils.guess_type): one meaning per text
+                res.oblige(p.pc_at(e), f'{prop}.parser_for_backend.cli_text_converted_like_env_and_file', z3.BoolVal(e.data['kwargs'].get('type') is b.gt))
+                dflt = e.data['kwargs'].get('default')
+                has_default = UF('param_default', PARAM, ANY)(arg.z) != b.EMPTY.z
+                ok = isinstance(dflt, SV)
+                res.oblige(p.pc_at(e), f'{prop}.parser_for_backend.default_is_the_constructor_default_or_missing', z3.BoolVal(ok) if not ok else z3.If(
+                    has_default, sym.lift(dflt, ANY).z == UF('param_default', PARAM, ANY)(arg.z), sym.lift(dflt, ANY).z == b.st.lookup('missing').z))
+        res.oblige([], f'{prop}.parser_for_backend.iterations_checked', z3.BoolVal(n >= 2))
+    return post
+
+
+def parser_for_backend_unit(prop):
+    from vf.interp import LoopSpec
+    t = lambda ctx: z3.BoolVal(True)
+    return Unit(f'{prop}.parser_for_backend', CLI_PY, 'parser_for_backend', pfb_setup, pfb_post(prop),
+                loops={'For#1': LoopSpec(t, modifies=['name', 'help', 'default'], name='For#1',
+                                         types={'default': ANY, 'help': STR, 'name': STR})},
+                local_types={'default': ANY}, prop=prop)
+
+
 def units(prop):
     return [
         Unit(f'{prop}.guess_type[str]', UTILS_PY, 'guess_type', guess_setup(STR), guess_post(prop, 'str'), prop=prop),
         Unit(f'{prop}.guess_type[int]', UTILS_PY, 'guess_type', guess_setup(INT), guess_post(prop, 'int'), prop=prop),
         Unit(f'{prop}.guess_type[bool]', UTILS_PY, 'guess_type', guess_setup(BOOL), guess_post(prop, 'bool'), prop=prop),
         main_order(prop),
+        parser_for_backend_unit(prop),
     ]
